@@ -52,7 +52,7 @@ auto make()
 }
 
 template<typename P>
-static void one(const P& p, const char* text, FILE* out)
+static void one(const P& p, const char* text, FILE* out, const std::string& tag = "throw:")
 {
     g_ev.clear();
     utils::no_stream ns;
@@ -65,7 +65,7 @@ static void one(const P& p, const char* text, FILE* out)
         if (ok) ev("v_take", r.value().oid, r.value().pay);       // the caller consumes the result
     }
     catch (const functor_failure& e) { threw = true; what = e.what(); }
-    std::string o = std::string("{\"id\":\"throw:") + text + "\",\"ok\":" + (ok ? "true" : "false") + ",\"threw\":" + (threw ? "true" : "false") + ",\"events\":[";
+    std::string o = std::string("{\"id\":\"") + tag + text + "\",\"ok\":" + (ok ? "true" : "false") + ",\"threw\":" + (threw ? "true" : "false") + ",\"events\":[";
     bool first = true;
     for (const Ev& e : g_ev) { if (!first) o += ','; first = false; o += std::string("[\"") + e.k + "\"," + std::to_string(e.a) + "," + std::to_string(e.b) + "]"; }
     o += "]}\n";
@@ -82,6 +82,13 @@ int main(int argc, char** argv)
     auto p = make();
     for (const char* t : { "x", "x,x", "!", "x,!", "!,x", "x,x,!,x", "(x,(x,!))", "((!))", "(x,x),(x,(!),x)", "x,(x", "(x,x),x" })
         one(p, t, out);
+    // C15: a call AFTER a call that an exception abandoned is the call it would be in isolation (same thread, same parser)
+    one(p, "x,x,(x)", out, "base:");
+    for (const char* t : { "!", "x,!", "(x,(x,!))", "x,x,!,x" })
+    {
+        one(p, t, out, std::string("again:") + t + ":");
+        one(p, "x,x,(x)", out, std::string("after:") + t + ":");
+    }
     fclose(out);
     return 0;
 }
